@@ -33,7 +33,7 @@ ANCHORS = [
     "acnportal.acndata.utils:parse_dates",
 ]
 REQUIRED = ["interleaved_scenarios", "scenarios_judged", "multi_page_scenarios", "empty_page_scenarios", "zero_document_scenarios", "timeseries_scenarios",
-            "time_filter_scenarios", "date_fields_checked", "timeseries_timestamps_checked", "timeseries_straddling_offset_change", "chains_of_over_1000_pages", "round_trips", "tzinfo:zoneinfo", "zoneinfo_fold_1_with_microseconds", "invalid_site_rejections",
+            "time_filter_scenarios", "date_fields_checked", "timeseries_timestamps_checked", "timeseries_straddling_offset_change", "chains_of_over_1000_pages", "meta_block:small", "meta_block:absent", "meta_block:zero", "round_trips", "tzinfo:zoneinfo", "zoneinfo_fold_1_with_microseconds", "invalid_site_rejections",
             "regime:dst-transition-instant"]
 BUDGET_S = {"quick": 200, "thorough": 2400}
 ZONES = ["America/Los_Angeles", "America/New_York", "Europe/London", "Asia/Kolkata", "Australia/Sydney", "UTC",
@@ -57,7 +57,8 @@ def cases(seed, tier):
                     "tz": rng.choice(ZONES), "cap": rng.choice([1000, 7, 1, 100, 50]),
                     "empties": ([rng.randint(1, 3)] if rng.random() < 0.3 else []) + ([rng.randint(1, 6)] if rng.random() < 0.1 else []),
                     "empty_last": rng.random() < 0.15, "extra_links": rng.random() < 0.7, "ts": rng.random() < 0.2,
-                    "mode": rng.choice(["all", "time", "time", "args"])})
+                    "mode": rng.choice(["all", "time", "time", "args"]),
+                    "meta": rng.choice(["accurate", "accurate", "absent", "small", "zero", "large", "text"])})
     # very long chains of 'next' links: a thousand pages and more (one session per page is how the time-series endpoint pages)
     for i in range(3 if tier == "quick" else 40):
         out.append({"kind": "paging", "seed": rng.randrange(1 << 40), "n": rng.choice([1100, 1600, 2300]), "tz": rng.choice(ZONES),
@@ -108,7 +109,8 @@ def _run_paging(case, obs):
     if case.get("long"):
         obs.ev("chains_of_over_1000_pages")
     fake = FakeRequests(docs, cap=case["cap"], empties=case["empties"], extra_links=case["extra_links"],
-                        empty_last=case["empty_last"])
+                        empty_last=case["empty_last"], meta=case.get("meta", "accurate"))
+    obs.ev("meta_block:" + case.get("meta", "accurate"))
     hrefs = []
     orig_get = fake.get
 
